@@ -4,7 +4,9 @@ import (
 	"fmt"
 	"go/constant"
 	"go/token"
+	"go/types"
 	"sort"
+	"strings"
 
 	"golang.org/x/tools/go/ssa"
 )
@@ -85,6 +87,12 @@ func ruleEANCheckValue(c *Ctx) {
 				}
 			}
 			ok, why := isLastCharDigitValue(c, cs.content, cs.sum)
+			if !ok {
+				// the check digit delivered together with its numeric value by one helper call
+				if ok2, why2 := pairedDigitValue(c, fn, call, cs.content, cs.sum, cs.pred); ok2 {
+					ok, why = true, why2
+				}
+			}
 			c.Check(R, key, call.Pos(), ok, "checksum == RuneToInt(last character of content)", why)
 		}
 	})
@@ -252,6 +260,99 @@ func isLastCharDigitValue(c *Ctx, content, sum ssa.Value) (bool, string) {
 		return false, "checksum digit taken from index " + n.Norm(ixI).String() + ", not len-1"
 	}
 	return false, "checksum is RuneToInt(" + n.Norm(r).asAtom() + "), not the last character of content " + n.Norm(content).asAtom()
+}
+
+// pairedDigitValue: sum and the last character of content are two results of ONE call of a helper
+// that hands out a digit rune together with its value:
+//
+//	r, v := H(x)   where every return of H yields (IntToRune(w), w) or a constant pair (c, RuneToInt(c))
+//
+// (B4 pins the values passed to IntToRune to 0..9, so RuneToInt(IntToRune(w)) == w), and either
+// content = X + string(r), or the constructor is only reached after X + string(r) == content was
+// checked. Then sum == RuneToInt(last character of content).
+func pairedDigitValue(c *Ctx, fn *ssa.Function, ctor *ssa.Call, content, sum ssa.Value, pred *ssa.BasicBlock) (bool, string) {
+	es, ok := sum.(*ssa.Extract)
+	if !ok {
+		return false, ""
+	}
+	hc, ok := es.Tuple.(*ssa.Call)
+	if !ok {
+		return false, ""
+	}
+	H := hc.Common().StaticCallee()
+	if H == nil || !isRepoFunc(H) || H.Blocks == nil {
+		return false, ""
+	}
+	// the rune result of the same call
+	var er *ssa.Extract
+	for _, r := range *hc.Referrers() {
+		if ex, ok := r.(*ssa.Extract); ok && ex != es {
+			if b, isB := ex.Type().Underlying().(*types.Basic); isB && b.Kind() == types.Int32 {
+				er = ex
+			}
+		}
+	}
+	if er == nil {
+		return false, ""
+	}
+	for _, ret := range returnsOf(H) {
+		rv, vv := ret.Results[er.Index], ret.Results[es.Index]
+		if call, ok := rv.(*ssa.Call); ok && calleeFull(call) == modPath+"/utils.IntToRune" && call.Common().Args[0] == vv {
+			continue
+		}
+		kr, ok1 := rv.(*ssa.Const)
+		kv, ok2 := vv.(*ssa.Const)
+		if ok1 && ok2 && kr.Value != nil && kv.Value != nil {
+			r, _ := constant.Int64Val(constant.ToInt(kr.Value))
+			v, _ := constant.Int64Val(constant.ToInt(kv.Value))
+			want := int64(-1) // utils.RuneToInt of a rune that is not a digit (pinned by the RuneToInt rule)
+			if r >= '0' && r <= '9' {
+				want = r - '0'
+			}
+			if v == want {
+				continue
+			}
+		}
+		return false, "helper " + c.P.FuncName(H) + " returns a rune and a value that are not a digit and its value at " + c.P.Pos(ret.Pos())
+	}
+	isStrOfR := func(v ssa.Value) bool {
+		cv, ok := v.(*ssa.Convert)
+		return ok && isStringType(cv.Type()) && cv.X == ssa.Value(er)
+	}
+	// content = X + string(r)
+	if cat, ok := content.(*ssa.BinOp); ok && cat.Op == token.ADD && isStrOfR(cat.Y) {
+		return true, "content = X + string(r) with (r, checksum) one digit/value pair of " + c.P.FuncName(H)
+	}
+	// or: reached only when X + string(r) == content
+	n := NewNormer(c.P)
+	rc := n.ReachCond(fn, nil, ctor.Block())
+	if pred != nil {
+		rc = n.ReachCond(fn, nil, pred) // this alternative of (content, checksum): the path through pred
+	}
+	var found bool
+	eachInstr(fn, func(b *ssa.BasicBlock, ins ssa.Instruction) {
+		bo, ok := ins.(*ssa.BinOp)
+		if !ok || (bo.Op != token.EQL && bo.Op != token.NEQ) {
+			return
+		}
+		for _, pair := range [][2]ssa.Value{{bo.X, bo.Y}, {bo.Y, bo.X}} {
+			cat, ok := pair[0].(*ssa.BinOp)
+			if !ok || cat.Op != token.ADD || !isStrOfR(cat.Y) || pair[1] != content {
+				continue
+			}
+			same := n.CondOf(bo)
+			if bo.Op == token.NEQ {
+				same = cNot(same)
+			}
+			if imp, _, _ := CondRelation(rc, same); imp {
+				found = true
+			}
+		}
+	})
+	if found {
+		return true, "constructor reached only when X + string(r) == content, with (r, checksum) one digit/value pair of " + c.P.FuncName(H)
+	}
+	return false, ""
 }
 
 // ---------------------------------------------------------------------------------------------
@@ -705,7 +806,10 @@ func checkWeightToggle(c *Ctx, R string, fn *ssa.Function, name string, accs []*
 		}
 	}
 	if tog == nil {
-		c.Undecided(R, name+"/toggle", acc.Pos(), "no boolean toggle and no alternating two-state variable next to the accumulator")
+		if out := checkPositionalWeights(c, R, fn, name, accs, header, digit, backIdx); out != nil {
+			return out
+		}
+		c.Undecided(R, name+"/toggle", acc.Pos(), "no boolean toggle, no alternating two-state variable and no weight by position parity next to the accumulator")
 		return nil
 	}
 	c.Check(R, name+"/toggle-flips", tog.Pos(), true, "the state variable alternates between its two values on the back edge", fmt.Sprintf("%d <-> %d", st[0], st[1]))
@@ -802,6 +906,97 @@ func checkWeightToggle(c *Ctx, R string, fn *ssa.Function, name string, accs []*
 		wN += o[1]
 	}
 	c.Check(R, name+"/increment", acc.Pos(), okInc && wT > 0 && wN > 0, "the digit is added in both states", fmt.Sprintf("multiples of the digit per accumulator (odd-length start state, other state): %v", out))
+	return out
+}
+
+// checkPositionalWeights: no carried state at all - the weight of a digit is decided from the parity of
+// its position and the length of the input. The increments are read per (length, parity); "toggle
+// set" is then the parity of the right-most position, so the caller's requirement "3 when set, 1 when
+// clear" says: the right-most digit counts three times and the weights alternate from there.
+func checkPositionalWeights(c *Ctx, R string, fn *ssa.Function, name string, accs []*ssa.Phi, header *ssa.BasicBlock, digit ssa.Value, backIdx int) [][2]int64 {
+	// the position: key of a range over the input, or the index of a counting loop from 0
+	var pos ssa.Value
+	for _, ins := range header.Instrs {
+		if nx, ok := ins.(*ssa.Next); ok && nx.IsString {
+			for _, r := range *nx.Referrers() {
+				if ex, ok := r.(*ssa.Extract); ok && ex.Index == 1 {
+					pos = ex
+				}
+			}
+		}
+	}
+	if pos == nil {
+		if idx, _, init, ok := loopIndex(header); ok && init == 0 {
+			pos = idx
+		}
+	}
+	if pos == nil || len(fn.Params) == 0 {
+		return nil
+	}
+	domain := []int64{1, 2, 3, 4, 5, 6, 7, 8, 9, 10, 11, 12, 13, 14}
+	if shortName(fn.Pkg.Pkg.Path()) == "ean" {
+		domain = []int64{7, 12} // N3-LEN establishes that only these lengths arrive
+	}
+	body := header.Succs[0]
+	out := make([][2]int64, len(accs))
+	set := make([][2]bool, len(accs))
+	for ai, a := range accs {
+		n := NewNormer(c.P)
+		n.Root = fn
+		n.Bind[fn.Params[0]] = "code"
+		n.Bind[a], n.Bind[digit], n.Bind[pos] = "s", "d", "pos"
+		cases := n.valueCases(fn, body, a.Edges[backIdx], 0)
+		usesParity := false
+		for _, cs := range cases {
+			if strings.Contains(cs.cond.String(), "Mod(pos,2)") {
+				usesParity = true
+			}
+		}
+		if !usesParity && len(accs) == 1 {
+			return nil
+		}
+		for _, L := range domain {
+			for par := int64(0); par < 2; par++ {
+				var ks []int64
+				for _, cs := range cases {
+					if !evalCond(cs.cond, map[string]int64{"len(code)": L, "Mod(pos,2)": par, "d": 5, "pos": par}, nil) {
+						continue
+					}
+					inc := pAdd(cs.val, pAtom("s"), -1)
+					switch {
+					case len(inc) == 0:
+						ks = append(ks, 0)
+					case len(inc) == 1 && inc["d"] != 0:
+						ks = append(ks, inc["d"])
+					default:
+						c.Check(R, fmt.Sprintf("%s/increment#%d", name, ai+1), a.Pos(), false, "the sum grows by a multiple of the digit", "s' - s = "+inc.String()+" when "+cs.cond.String())
+						return nil
+					}
+				}
+				if len(ks) != 1 {
+					c.Undecided(R, fmt.Sprintf("%s/increment#%d", name, ai+1), a.Pos(), fmt.Sprintf("%d alternatives at length %d, position parity %d", len(ks), L, par))
+					return nil
+				}
+				si := 1
+				if par == (L-1)%2 {
+					si = 0 // the parity of the right-most position
+				}
+				if set[ai][si] && out[ai][si] != ks[0] {
+					c.Check(R, name+"/toggle-init", a.Pos(), false, "the same weight on the right-most digit for every admissible length", fmt.Sprintf("length %d gives %d, another length %d", L, ks[0], out[ai][si]))
+					return nil
+				}
+				out[ai][si], set[ai][si] = ks[0], true
+			}
+		}
+	}
+	c.Check(R, name+"/toggle-flips", accs[0].Pos(), true, "the weight is a function of the position parity: it alternates by construction", "by position parity")
+	c.Check(R, name+"/toggle-init", accs[0].Pos(), true, "the right-most position carries the first weight for every admissible length", fmt.Sprint(domain))
+	var wT, wN int64
+	for _, o := range out {
+		wT += o[0]
+		wN += o[1]
+	}
+	c.Check(R, name+"/increment", accs[0].Pos(), wT > 0 && wN > 0, "the digit is added at both parities", fmt.Sprintf("multiples of the digit per accumulator (right-most parity, other parity): %v", out))
 	return out
 }
 
